@@ -122,9 +122,11 @@ def render(t, v, top=True):
                 ls = "(" + ls + ")"
             if prec(r) < PREC["neg"]:
                 rs = "(" + rs + ")"
-            if v["pow"] == "sup" and l[0] == "name" and r[0] == "num" and r[1].lstrip("-").isdigit():
+            # a unicode exponent directly after a name, or after the parenthesis that closes the base: 'm²', '(m s)²', '(2+2)⁻¹'
+            supable = l[0] == "name" or ls.endswith(")")
+            if v["pow"] == "sup" and supable and r[0] == "num" and r[1].lstrip("-").isdigit():
                 s = ls + r[1].translate(SUP)
-            elif v["pow"] == "sup" and l[0] == "name" and r[0] == "neg" and r[1][0] == "num" and r[1][1].isdigit():
+            elif v["pow"] == "sup" and supable and r[0] == "neg" and r[1][0] == "num" and r[1][1].isdigit():
                 s = ls + ("-" + r[1][1]).translate(SUP)
             else:
                 o = "^" if v["pow"] == "^" else "**"
@@ -713,7 +715,33 @@ def case_alias(case, col=None):
             raise Violation("parse_units_changed_by_earlier_result", f"{text!r} {mut}")
 
 
+def case_preproc(case, col=None):
+    """A pre-processor added to one registry (the documented ureg.preprocessors.append) is not applied by any other registry."""
+    import pint
+
+    if col is not None:
+        col.case(("pp", str(case)), True, sample=case, cls="preprocessors")
+    texts = ["6 Hz s-2", "3 m s-1", "2 kg", "m/s"]
+    ref = pint.UnitRegistry()
+    before = [attempt(ref.parse_expression, t) for t in texts]
+    a = pint.UnitRegistry()
+    b_early = pint.UnitRegistry(non_int_type=Decimal) if case["other"] == "Decimal" else pint.UnitRegistry()
+    import re as _re
+
+    a.preprocessors.append(lambda s: _re.sub(r"(?<=[A-Za-z])(?![A-Za-z])(?<![0-9\-][eE])(?<![0-9\-])(?=[0-9\-])", "**", s))
+    attempt(a.parse_expression, "6 Hz s-2")
+    b_late = pint.UnitRegistry()
+    for tag, reg in (("built before", b_early), ("built after", b_late), ("reference", ref)):
+        for t, w in zip(texts, before):
+            g = attempt(reg.parse_expression, t)
+            same = g[0] == w[0] and (g[0] == "err" or (float(getattr(g[1], "magnitude", g[1])) == float(getattr(w[1], "magnitude", w[1])) and dict(getattr(g[1], "_units", {})) == dict(getattr(w[1], "_units", {}))))
+            if not same:
+                raise Violation("preprocessor_of_one_registry_applied_by_another", f"registry {tag} the append on another registry: parse_expression({t!r}) -> {g[1]!r}, expected {w[1]!r}")
+
+
 def run_alias(task, tier, seed, col):
+    for other in ("float", "Decimal"):
+        col.run_case(lambda c: case_preproc(c, col), {"other": other})
     for text in ALIAS_EXPRS:
         for mut in ("ito_base", "ito_root", "imul", "ito_reduced", "idiv"):
             for force in (False, True):
@@ -732,6 +760,8 @@ def _tup(x):
 
 
 def replay(sub, case):
+    if sub == "alias" and "other" in case:
+        return case_preproc(case)
     if sub == "alias":
         return case_alias(case)
     if "tree" in case:
